@@ -37,6 +37,7 @@ type brCase struct {
 	Word          []brLetter `json:"word"`
 	CloseAt       int        `json:"close_at,omitempty"` // Close() when the server has received that many requests
 	Reopen        bool       `json:"reopen,omitempty"`
+	ReopenMax     int        `json:"reopen_max,omitempty"` // the re-Open passes a Config with this Net.MaxOpenRequests (0 = the same Config)
 	Jitter        bool       `json:"jitter,omitempty"` // park senders briefly at br.written (between write and promise enqueue)
 	PauseUs       int        `json:"pause_us,omitempty"`
 	WriteFailAt   int        `json:"write_fail_at,omitempty"` // the k-th write of the client fails with a timeout, nothing written (0 = none)
@@ -113,6 +114,13 @@ func brCore() []brCase {
 						Word: w, CloseAt: 6, Reopen: reopen, Kinds: brAllKinds}
 					out = append(out, c)
 				}
+			}
+		}
+		// (3b) re-Open with a Config that allows fewer open requests: the second connection obeys the second Config.
+		for _, mm := range [][2]int{{5, 1}, {4, 2}, {8, 1}} {
+			for _, closeAt := range []int{1, 3} {
+				out = append(out, brCase{Name: fmt.Sprintf("core/reopen-lower/max=%d-%d/close-at=%d", mm[0], mm[1], closeAt), Callers: 10, CallsPer: 8, Max: mm[0],
+					Word: []brLetter{{Op: opAnswer, K: 1}, {Op: opHold, K: mm[0] + 3}, {Op: opHold, K: mm[0] + 3}}, CloseAt: closeAt, Reopen: true, ReopenMax: mm[1], Kinds: brAllKinds})
 			}
 		}
 		// (4) fault-free baselines (spurious errors, crosstalk under plain concurrency)
@@ -232,6 +240,9 @@ func brRandomCase(tier string, seed int64, idx int) brCase {
 	}
 	sort.Strings(c.Kinds)
 	c.ReadTimeoutMs = brReadTimeout(c.Word)
+	if c.Reopen && c.Max > 1 && rng.Intn(2) == 0 {
+		c.ReopenMax = 1 + rng.Intn(c.Max-1)
+	}
 	return c
 }
 
@@ -499,7 +510,13 @@ func runBrokerCase(c brCase) *brResult {
 		atomic.StoreInt32(&closeReturned, 1)
 		atomic.AddInt64(&callProgress, 1)
 		if c.Reopen {
-			oerr := br.Open(conf)
+			conf2 := conf
+			if c.ReopenMax > 0 {
+				cp := *conf
+				cp.Net.MaxOpenRequests = c.ReopenMax
+				conf2 = &cp
+			}
+			oerr := br.Open(conf2)
 			mu.Lock()
 			res.reopenRet = sarama.VerifNextSeq()
 			res.openErr = oerr
@@ -587,7 +604,7 @@ func (e *brokerEngine) Run(prop, tier string, seed int64, idx int) proto.Rec {
 	res := runBrokerCase(c)
 	rec := proto.Rec{Obs: map[string]int64{}}
 	rec.Sample = map[string]interface{}{"case": c.Name, "callers": c.Callers, "calls_per_caller": c.CallsPer, "max_open_requests": c.Max,
-		"read_timeout_ms": c.ReadTimeoutMs, "word": brWordString(c.Word), "close_at": c.CloseAt, "reopen": c.Reopen, "jitter": c.Jitter, "kinds": strings.Join(c.Kinds, ",")}
+		"read_timeout_ms": c.ReadTimeoutMs, "word": brWordString(c.Word), "close_at": c.CloseAt, "reopen": c.Reopen, "reopen_max": c.ReopenMax, "jitter": c.Jitter, "kinds": strings.Join(c.Kinds, ",")}
 	if res.srv == nil {
 		rec.Verdict, rec.Why = "inconclusive", res.inconcl
 		return rec
@@ -796,6 +813,10 @@ func brJudge(res *brResult, rec *proto.Rec) {
 	// in-flight bound at every request arrival
 	worstK, worstMsg := 0, ""
 	for _, cn := range srv.conns {
+		max := c.Max
+		if c.ReopenMax > 0 && res.closeRet != 0 && cn.openSeq > res.closeRet {
+			max = c.ReopenMax // a connection of the second Open: the second Config's bound
+		}
 		for i, r := range cn.all {
 			if r.NoResp {
 				continue
@@ -823,9 +844,9 @@ func brJudge(res *brResult, rec *proto.Rec) {
 				cnt++
 				ids = append(ids, fmt.Sprint(q.Corr))
 			}
-			if k := cnt - c.Max; k > worstK {
+			if k := cnt - max; k > worstK {
 				worstK = k
-				worstMsg = fmt.Sprintf("connection %d: when request id %d arrived (stamp %d) %d requests were received and unanswered (ids %s) with Net.MaxOpenRequests=%d", cn.ID, r.Corr, s, cnt, strings.Join(ids, ","), c.Max)
+				worstMsg = fmt.Sprintf("connection %d: when request id %d arrived (stamp %d) %d requests were received and unanswered (ids %s) with Net.MaxOpenRequests=%d", cn.ID, r.Corr, s, cnt, strings.Join(ids, ","), max)
 			}
 		}
 	}
